@@ -33,9 +33,6 @@ type failFn func(fingerprint, format string, args ...any)
 type fakePool struct {
 	fail  failFn
 	files []*poolFile
-	// beforeMutate, if set, is called by every file right before its
-	// contents change (the caller holds the lock of the virtual file).
-	beforeMutate func(f *poolFile, op string)
 }
 
 func (p *fakePool) NewFile(holeSource pool.HoleSource, size uint64) (filesystem.FileReadWriter, error) {
@@ -58,6 +55,9 @@ type poolFile struct {
 	history [][]byte
 	// reads counts ReadAt calls (evidence only).
 	reads int
+	// failReads makes the next ReadAt calls fail (fault injection);
+	// readFailures counts the failures that were delivered.
+	failReads, readFailures int
 }
 
 func (f *poolFile) version() int { return len(f.history) - 1 }
@@ -90,6 +90,11 @@ func (f *poolFile) ReadAt(p []byte, off int64) (int, error) {
 		return 0, status.Error(codes.Internal, "pool file used after close")
 	}
 	f.reads++
+	if f.failReads > 0 {
+		f.failReads--
+		f.readFailures++
+		return 0, status.Error(codes.Internal, "injected pool read error")
+	}
 	if off < 0 {
 		return 0, status.Error(codes.InvalidArgument, "negative offset")
 	}
@@ -110,9 +115,6 @@ func (f *poolFile) WriteAt(p []byte, off int64) (int, error) {
 	if !f.use("WriteAt") {
 		return 0, status.Error(codes.Internal, "pool file used after close")
 	}
-	if f.pool.beforeMutate != nil {
-		f.pool.beforeMutate(f, "WriteAt")
-	}
 	if end := int(off) + len(p); end > len(f.data) {
 		f.data = append(f.data, make([]byte, end-len(f.data))...)
 	}
@@ -124,9 +126,6 @@ func (f *poolFile) WriteAt(p []byte, off int64) (int, error) {
 func (f *poolFile) Truncate(size int64) error {
 	if !f.use("Truncate") {
 		return status.Error(codes.Internal, "pool file used after close")
-	}
-	if f.pool.beforeMutate != nil {
-		f.pool.beforeMutate(f, "Truncate")
 	}
 	if int(size) <= len(f.data) {
 		f.data = f.data[:size:size]
@@ -184,7 +183,7 @@ type fakeCAS struct {
 	// enter is called at the start of every Put, before anything is
 	// read; it is the scheduling point of the concurrent scenarios. It
 	// returns false if the Put has to fail.
-	enter func() bool
+	enter func(d digest.Digest) bool
 	// who names the calling thread.
 	who func() string
 	// received is called with the bytes right after they were read.
@@ -212,7 +211,7 @@ func (c *fakeCAS) Put(ctx context.Context, d digest.Digest, b buffer.Buffer) err
 	if c.who != nil {
 		who = c.who()
 	}
-	if c.enter != nil && !c.enter() {
+	if c.enter != nil && !c.enter(d) {
 		// A failing storage backend still owns the buffer.
 		b.Discard()
 		c.mu.Lock()
